@@ -18,7 +18,8 @@ MANIFEST = {
             'side chains, side chains that tie but never exceed, three-way forks, double reorganisations) delivered through '
             'both add paths; after every arrival head, tip set, by-height index of every stored block and forks() are '
             'compared with a reference fork choice that knows only arrival order and heights. Run 0 of every batch '
-            'additionally enumerates all 720 parent-choice sequences of 6 blocks (reported, not the deciding step).',
+            'additionally enumerates all 720 parent-choice sequences of 6 blocks (reported, not the deciding step).'
+            ' 30% of the trees are installed in a real ChainManager after every arrival and read back from there; 3% have a side branch starting 100-135 blocks below the tip of a long chain.',
     'note': 'Trusted: reference fork choice (refmodel/rules.py RefChain.head/tips/ancestors); blocks are assembled by the '
             'repo; scrypt stand-in on the validated path; hollow base or real genesis as root.',
 }
